@@ -207,6 +207,9 @@ func c01worker(arg string) {
 			if strings.HasSuffix(init.name, "-expired-unpurged") && !thorough && init.name != "[x]-expired-unpurged" {
 				continue // quick tier: one start state with an expired, unpurged entry
 			}
+			if strings.HasPrefix(init.name, "long-") && !thorough {
+				continue
+			}
 			if strings.HasPrefix(init.name, "grown-") {
 				// the capacity-threshold start states matter for atomicity (C02 runs them all); for the
 				// race/panic/deadlock oracle one (thorough: four) of them per type is enough
